@@ -316,6 +316,14 @@ theorem C04_only_polls_dial (s : State) (op : Op) (hp : ∀ r, op ≠ .poll r) (
     · show (setConn s c _).dialCount = _
       unfold setConn; split <;> rfl
     · rfl
+  | connFail c =>
+    simp only [step]
+    split
+    · split
+      · show (setConn s c _).dialCount = _
+        unfold setConn; split <;> rfl
+      · rfl
+    · rfl
   | tick ms => rfl
   | mark => rfl
   | shutdown => exact abortAll_dials _ s
